@@ -589,3 +589,8 @@ mod tests {
         assert!(result.is_err());
     }
 }
+
+// verification hook (guard: cfg(kani), set only by `cargo kani`): harness module supplied by /verif
+#[cfg(kani)]
+#[path = "verif_kani_apply.rs"]
+mod verif_kani;
